@@ -49,6 +49,19 @@ Proof.
   intro s. unfold signing_required, xs_true, Core.Acs.xs_true. rewrite !orb_true_iff, !beq_eq. tauto.
 Qed.
 
+(** a KeyInfo the request's signature carries must be a registered certificate: whenever the signature names certificates
+    and the provider registered key descriptors, an accepted request names one of the registered certificates *)
+Theorem C05_keyinfo_registered : forall c st id, has_tag c TCertCheck = true -> handler c = Done st [RLogin id] ->
+  exists a s, can_req e_form decode = Some a /\ can_sp e_form decode lookup = Some s /\
+    (cert_check_necessary a s = true ->
+       check_certificate a s = true /\
+       exists g cs kd cert, a_signature a = Some g /\ sg_keyinfo g = Some cs /\ In kd (sp_keydescs s) /\ In cert kd /\ bmem cert cs = true).
+Proof.
+  intros c st id Ht H. eapply (accept_cert e_form decode lookup verify_redirect verify_post instant_of now create want_signed sso_locs entity_id); [exact Ht|]. eapply accepted_passes; exact H.
+Qed.
+Theorem C05_current_tree_cert : has_tag sso_steps TCertCheck = true.
+Proof. vm_compute. reflexivity. Qed.
+
 Theorem C05_current_tree : has_tags sso_steps tags5 = true.
 Proof. vm_compute. reflexivity. Qed.
 End C05.
@@ -78,3 +91,5 @@ Print Assumptions C05_signatures.
 Print Assumptions C05_persisted.
 Print Assumptions C05_required_forms.
 Print Assumptions C05_current_tree.
+Print Assumptions C05_keyinfo_registered.
+Print Assumptions C05_current_tree_cert.
